@@ -28,11 +28,11 @@
 EXTENDS Naturals, Sequences, FiniteSets, TLC, Causes
 
 CONSTANTS
-  H,          \* handler ids
-  HC,         \* [h |-> [reasons, optional, deleted, retries (0 = unlimited), mode, backoff]]
-  Order,      \* handler ids in registration order (a sequence)
-  Lifecycle,  \* "all" | "one" | "asap"
-  CTimeout,   \* settings.persistence.consistency_timeout (0 = disabled)
+  H,          \* the universe of handler ids (an id whose `reasons` is empty is not registered)
+  ConfSet,    \* the operator configurations to explore: records [hc, order, lifecycle, ctimeout] with
+              \*   hc = [h |-> [reasons, optional, deleted, retries (0 = unlimited), mode, backoff]]
+              \*   order = handler ids in registration order; lifecycle = "all" | "one" | "asap"
+              \*   ctimeout = settings.persistence.consistency_timeout (0 = disabled)
   Delays,     \* delays a TemporaryError may ask for
   EssVals,    \* essence ids available to the user
   Foreign,    \* names of foreign finalizers
@@ -61,9 +61,16 @@ VARIABLES
   cyc,    \* what the running processing cycle has computed so far
   now,    \* the clock
   bud,    \* environment budgets (counters)
-  gh      \* ghosts for the properties
+  gh,     \* ghosts for the properties
+  conf    \* the configuration of the operator: chosen initially, never changes (a variable only so that one
+          \* TLC run can validate traces of differently configured operators)
 
-vars == <<obj, chan, bl, up, stopping, mem, wk, pc, cyc, now, bud, gh>>
+vars == <<obj, chan, bl, up, stopping, mem, wk, pc, cyc, now, bud, gh, conf>>
+HC == conf.hc
+Order == conf.order
+Lifecycle == conf.lifecycle
+CTimeout == conf.ctimeout
+Registered == {h \in H : HC[h].reasons # {}}
 
 NoCyc == [s |-> [type |-> "none"], reason |-> "none", initial |-> FALSE, sel |-> {}, plan |-> <<>>, np |-> [h \in H |-> NoRec],
           purge |-> FALSE, fns |-> {}, req |-> [k |-> "none"], fresh |-> 0, rv |-> 0, rem |-> {}, gone |-> FALSE, delays |-> {}, skipped |-> FALSE,
@@ -72,11 +79,12 @@ FreshMem == [known |-> FALSE, nbl |-> FALSE, fho |-> FALSE, rem |-> {}]
 FreshWk == [exp |-> 0, ctime |-> 0, pr |-> FALSE]
 
 Init ==
+  /\ conf \in ConfSet
   /\ obj = [exists |-> TRUE, rv |-> 1, ess |-> 1, lh |-> 0, prog |-> [h \in H |-> NoRec], fins |-> <<>>,
             deleting |-> FALSE, dummy |-> 0, match |-> TRUE]
   /\ chan = <<>>
   /\ bl = << [type |-> "ADDED", rv |-> 1, ess |-> 1, lh |-> 0, prog |-> [h \in H |-> NoRec], fins |-> <<>>,
-              deleting |-> FALSE, match |-> TRUE] >>
+              deleting |-> FALSE, match |-> TRUE, dummy |-> FALSE] >>
   /\ up = TRUE /\ stopping = FALSE /\ mem = FreshMem /\ wk = [FreshWk EXCEPT !.pr = TRUE]
   /\ pc = "idle" /\ cyc = NoCyc /\ now = 0
   /\ bud = [edits |-> 0, fails |-> 0, kills |-> 0, stops |-> 0, deletes |-> 0, foreign |-> 0, toggles |-> 0,
@@ -85,7 +93,7 @@ Init ==
            touched |-> FALSE, resumed |-> [h \in H |-> 0], badinv |-> "none", foreignlost |-> FALSE]
 
 Snap(type, o) == [type |-> type, rv |-> o.rv, ess |-> o.ess, lh |-> o.lh, prog |-> o.prog, fins |-> o.fins,
-                  deleting |-> o.deleting, match |-> o.match]
+                  deleting |-> o.deleting, match |-> o.match, dummy |-> (o.dummy # 0)]
 
 \* A write is committed: version bump; the change is announced on the operator's stream if it has one.
 Commit(o) ==
@@ -137,7 +145,7 @@ Kill ==           \* SIGKILL at any point; an in-flight request that the server 
   /\ mem' = FreshMem /\ wk' = FreshWk /\ bud' = [bud EXCEPT !.kills = @ + 1]
   /\ UNCHANGED <<obj, now, gh>>
 
-Stop ==           \* graceful: nothing new is started; the running cycle may finish
+Stop ==           \* graceful: the watcher is cancelled (no more deliveries); queued events and the running cycle may finish
   /\ up /\ ~stopping /\ "stop" \in Doors /\ bud.stops < MaxStops
   /\ stopping' = TRUE /\ bud' = [bud EXCEPT !.stops = @ + 1]
   /\ UNCHANGED <<obj, chan, bl, up, mem, wk, pc, cyc, now, gh>>
@@ -209,7 +217,7 @@ ProcBegin ==
          m1 == IF mem.known THEN mem ELSE [known |-> TRUE, nbl |-> (s.type = "NONE"), fho |-> FALSE, rem |-> {}]
          echo == wk.exp # 0 /\ wk.exp = s.rv
          ct == IF echo THEN 0 ELSE wk.ctime
-         reason0 == IF H = {} THEN "none"
+         reason0 == IF Registered = {} THEN "none"
                     ELSE DetectCause(s.type, s.deleting, Blocked(s), s.lh # 0, s.lh # s.ess, Initial(m1))
          reason1 == IF s.match THEN reason0 ELSE "none"          \* prematch: be blind to unmatched objects
          mustBlock == reason1 # "none" /\ Mandatory # {}
@@ -293,27 +301,30 @@ ProcFinish ==
          closing == done \/ skip
          \* State.store: records that differ from what the view had; State.purge: owned handlers (None)
          np == IF handled THEN cyc.np ELSE s.prog
+         \* State.store writes the records that differ from the view's; storage.purge sets a key to None only
+         \* if the view has it (and drops a record stored a moment ago in the same patch otherwise)
          progPatch == [h \in H |-> IF ~handled THEN "keep"
-                                   ELSE IF done THEN "purge"
+                                   ELSE IF done THEN (IF s.prog[h].st # "none" THEN "purge" ELSE "keep")
                                    ELSE IF np[h] # s.prog[h] THEN "store"
-                                   ELSE IF cyc.purge THEN "purge" ELSE "keep"]
+                                   ELSE IF cyc.purge /\ s.prog[h].st # "none" THEN "purge" ELSE "keep"]
          progChanged == \E h \in H : progPatch[h] # "keep"
          lhNew == IF closing /\ s.ess # s.lh THEN s.ess ELSE 0
          cdelays == IF handled THEN {MaxN(np[h].until, now) - now : h \in {x \in cyc.sel : ~Finished(np[x])}} ELSE {}
          release == s.type # "DELETED" /\ s.deleting /\ Blocked(s) /\ cdelays = {} /\ ~cyc.skipped
          fns == cyc.fns \cup (IF release THEN {"del"} ELSE {})
-         hasMerge == progChanged \/ lhNew # 0
-         nonempty == hasMerge \/ fns # {}
+         nonempty == progChanged \/ lhNew # 0 \/ fns # {}
+         \* apply(): a non-empty patch also clears the touch dummy -- if the view has one
+         hasMerge == progChanged \/ lhNew # 0 \/ (nonempty /\ s.dummy)
          m2 == IF closing THEN [mem EXCEPT !.fho = TRUE] ELSE mem
      IN
      /\ mem' = IF s.type = "DELETED" THEN mem ELSE m2
      /\ IF s.type = "DELETED"
         THEN pc' = "post" /\ cyc' = [cyc EXCEPT !.gone = TRUE]     \* nothing is applied for DELETED events
         ELSE IF nonempty
-        THEN /\ pc' = "r1"
+        THEN /\ pc' = IF hasMerge THEN "r1" ELSE "r3"     \* no merge part: the JSON-patch tests the view's own version
              /\ cyc' = [cyc EXCEPT !.req = [k |-> "patch", prog |-> progPatch, np |-> np, lh |-> lhNew, fns |-> fns,
                                             closing |-> closing, done |-> done],
-                                   !.delays = cdelays, !.fns = fns]
+                                   !.delays = cdelays, !.fns = fns, !.fresh = s.rv]
         ELSE IF cdelays # {} /\ MinOf(cdelays) > 0
         THEN pc' = "sleep" /\ cyc' = [cyc EXCEPT !.wake = now + MinOf(cdelays), !.delays = cdelays]
         ELSE IF cdelays # {}
@@ -400,7 +411,8 @@ SrvTouch ==
 (* something to do.                                                        *)
 (***************************************************************************)
 OpStep == ProcBegin \/ CWaitWoken \/ CWaitTimeout \/ Invoke \/ ProcFinish \/ SrvMerge \/ Reply1 \/ SrvJson \/ Post
-          \/ SleepWake \/ SleepExpire \/ SrvTouch \/ Down
+          \/ SleepWake \/ SleepExpire \/ SrvTouch
+\* Down (the process has exited after a graceful stop) is timed by exit_timeout etc.: not urgent
 Urgent == OpStep \/ Deliver
 Tick ==
   /\ now < Horizon /\ ~ENABLED Urgent
@@ -409,7 +421,7 @@ Tick ==
 
 EnvStep == (\E e \in EssVals : UserEdit(e) \/ Toggle(e)) \/ UserDelete \/ (\E f \in Foreign : ForeignAdd(f) \/ ForeignDel(f))
            \/ Kill \/ Stop \/ Start \/ Relist
-Next == OpStep \/ Deliver \/ EnvStep \/ Tick
+Next == (OpStep \/ Deliver \/ EnvStep \/ Down \/ Tick) /\ UNCHANGED conf
 SafeSpec == Init /\ [][Next]_vars
 Spec == Init /\ [][Next]_vars /\ WF_vars(OpStep) /\ WF_vars(Deliver) /\ WF_vars(Tick) /\ WF_vars(Start)
 
@@ -441,7 +453,7 @@ ForeignUntouched == ~gh.foreignlost
 ResumeOnce == \A h \in H : gh.resumed[h] <= 1
 \* C15 (stealth): an object that no handler matches is never written to -- except to withdraw the finalizer
 Quiescent == ~ENABLED Urgent /\ ~ENABLED Tick
-Converged == /\ obj.exists => (obj.match /\ H # {} => obj.lh = obj.ess) /\ \A h \in H : obj.prog[h] = NoRec
+Converged == /\ obj.exists => (obj.match /\ Registered # {} => obj.lh = obj.ess) /\ \A h \in H : obj.prog[h] = NoRec
              /\ pc = "idle" /\ mem.rem = {}
 \* C03: a terminal state of the bounded model (budgets spent, nothing enabled) is a converged one
 TerminalConverged == (up /\ ~ENABLED Urgent /\ now = Horizon /\ pc \notin {"sleep", "cwait"}) => Converged
